@@ -36,6 +36,8 @@ def run(ctx):
     ctx.do(rule_utc)
     ctx.do(rule_api_domain)
     ctx.do(rule_property_forward)
+    from .hidden_state import rule_no_hidden_state
+    ctx.do(rule_no_hidden_state, "C15.history-independence")
 
 
 class AStr(object):
